@@ -69,7 +69,7 @@ def ev(expr):
 
 
 def main():
-    lines = ["(* GENERATED by tools/gen_consts.py from %s -- do not edit, not committed *)" % SRC,
+    lines = ["(* GENERATED by tools/gen_consts.py from the crate's working tree -- do not edit, not committed *)",
              "From Coq Require Import NArith.", "Open Scope N_scope.", ""]
     missing = []
     for name, rel, rx in TABLE:
